@@ -260,3 +260,140 @@ Proof.
   cbn [forallb] in H. apply andb_prop in H as [Hb Hl].
   cbn [flat_map]. rewrite valid_encode by assumption. auto.
 Qed.
+
+(* ---------- decode (encode c) = c : the byte sequences are the encodings of exactly the scalar values ---------- *)
+Lemma scalar_range c : is_scalar_value c = true <-> c < 55296 \/ 57344 <= c < 1114112.
+Proof.
+  unfold is_scalar_value. rewrite orb_true_iff, andb_true_iff, !N.ltb_lt, N.leb_le. tauto.
+Qed.
+
+Lemma cont_range c : c < 256 -> is_cont c = true -> 128 <= c <= 191.
+Proof. intros H Hc. rewrite is_cont_range in Hc by assumption. now apply in_range_iff. Qed.
+
+Lemma width_cases b : b < 256 -> b <? 128 = false ->
+  (utf8_char_width b =? 2 = true -> 194 <= b <= 223) /\
+  (utf8_char_width b =? 3 = true -> 224 <= b <= 239) /\
+  (utf8_char_width b =? 4 = true -> 240 <= b <= 244).
+Proof.
+  intros Hb H1. apply N.ltb_ge in H1. rewrite width_of.
+  replace (b <? 128) with false by (symmetry; apply N.ltb_ge; lia).
+  destruct (b <? 194) eqn:E1; [repeat split; discriminate|apply N.ltb_ge in E1].
+  destruct (b <? 224) eqn:E2; [apply N.ltb_lt in E2; repeat split; try discriminate; lia|apply N.ltb_ge in E2].
+  destruct (b <? 240) eqn:E3; [apply N.ltb_lt in E3; repeat split; try discriminate; lia|apply N.ltb_ge in E3].
+  destruct (b <? 245) eqn:E4; [apply N.ltb_lt in E4; repeat split; try discriminate; lia|repeat split; discriminate].
+Qed.
+
+Lemma second3_range b c : second3 b c = true ->
+  (b = 224 /\ 160 <= c <= 191) \/ (225 <= b <= 236 /\ 128 <= c <= 191) \/ (b = 237 /\ 128 <= c <= 159) \/ (238 <= b <= 239 /\ 128 <= c <= 191).
+Proof.
+  unfold second3. rewrite !orb_true_iff, !andb_true_iff, !in_range_iff, !N.eqb_eq. tauto.
+Qed.
+
+Lemma second4_range b c : second4 b c = true ->
+  (b = 240 /\ 144 <= c <= 191) \/ (241 <= b <= 243 /\ 128 <= c <= 191) \/ (b = 244 /\ 128 <= c <= 143).
+Proof.
+  unfold second4. rewrite !orb_true_iff, !andb_true_iff, !in_range_iff, !N.eqb_eq. tauto.
+Qed.
+
+(* encoding of a value given by its 6-bit groups *)
+Lemma encode_2 u w : 2 <= u < 32 -> w < 64 -> encode_utf8 (u * 64 + w) = [192 + u; 128 + w].
+Proof.
+  intros Hu Hw. unfold encode_utf8.
+  replace (u * 64 + w <? 128) with false by (symmetry; apply N.ltb_ge; lia).
+  replace (u * 64 + w <? 2048) with true by (symmetry; apply N.ltb_lt; lia).
+  replace ((u * 64 + w) / 64) with u by (apply N.div_unique with w; lia).
+  replace ((u * 64 + w) mod 64) with w by (apply N.mod_unique with u; lia). reflexivity.
+Qed.
+
+Lemma encode_3 u v w : u < 16 -> v < 64 -> w < 64 -> 2048 <= u * 4096 + v * 64 + w ->
+  encode_utf8 (u * 4096 + v * 64 + w) = [224 + u; 128 + v; 128 + w].
+Proof.
+  intros Hu Hv Hw Hlo. unfold encode_utf8.
+  replace (u * 4096 + v * 64 + w <? 128) with false by (symmetry; apply N.ltb_ge; lia).
+  replace (u * 4096 + v * 64 + w <? 2048) with false by (symmetry; apply N.ltb_ge; lia).
+  replace (u * 4096 + v * 64 + w <? 65536) with true by (symmetry; apply N.ltb_lt; lia).
+  replace ((u * 4096 + v * 64 + w) / 4096) with u by (apply N.div_unique with (v * 64 + w); lia).
+  replace ((u * 4096 + v * 64 + w) / 64) with (u * 64 + v) by (apply N.div_unique with w; lia).
+  replace ((u * 64 + v) mod 64) with v by (apply N.mod_unique with u; lia).
+  replace ((u * 4096 + v * 64 + w) mod 64) with w by (apply N.mod_unique with (u * 64 + v); lia). reflexivity.
+Qed.
+
+Lemma encode_4 t u v w : t < 8 -> u < 64 -> v < 64 -> w < 64 -> 65536 <= t * 262144 + u * 4096 + v * 64 + w ->
+  encode_utf8 (t * 262144 + u * 4096 + v * 64 + w) = [240 + t; 128 + u; 128 + v; 128 + w].
+Proof.
+  intros Ht Hu Hv Hw Hlo. unfold encode_utf8. set (c := t * 262144 + u * 4096 + v * 64 + w) in *.
+  replace (c <? 128) with false by (symmetry; apply N.ltb_ge; lia).
+  replace (c <? 2048) with false by (symmetry; apply N.ltb_ge; lia).
+  replace (c <? 65536) with false by (symmetry; apply N.ltb_ge; lia).
+  replace (c / 262144) with t by (apply N.div_unique with (u * 4096 + v * 64 + w); lia).
+  replace (c / 4096) with (t * 64 + u) by (apply N.div_unique with (v * 64 + w); lia).
+  replace (c / 64) with (t * 4096 + u * 64 + v) by (apply N.div_unique with w; lia).
+  replace ((t * 64 + u) mod 64) with u by (apply N.mod_unique with t; lia).
+  replace ((t * 4096 + u * 64 + v) mod 64) with v by (apply N.mod_unique with (t * 64 + u); lia).
+  replace (c mod 64) with w by (apply N.mod_unique with (t * 4096 + u * 64 + v); lia). reflexivity.
+Qed.
+
+(* well-formed bytes decode to scalar values whose encoding is the input: well-formedness in the sense of
+   valid_utf8 is exactly "is a concatenation of encodings of Unicode scalar values" *)
+Lemma decode_sound_aux n : forall d cs, (length d <= n)%nat -> wf_bytes d -> utf8_decode d = Some cs ->
+  forallb is_scalar_value cs = true /\ encode_all cs = d.
+Proof.
+  induction n as [|n IH]; intros d cs Hl Hw H.
+  - destruct d; [|cbn in Hl; lia]. cbn in H. injection H as <-. split; reflexivity.
+  - destruct d as [|b r]; [cbn in H; injection H as <-; split; reflexivity|].
+    cbn [length] in Hl. unfold wf_bytes in Hw. apply Forall_cons_iff in Hw as [Hb Hr]. unfold wf_byte in Hb.
+    cbn [utf8_decode] in H.
+    destruct (b <? 128) eqn:E1.
+    { destruct (utf8_decode r) as [cs'|] eqn:Er; [|discriminate]. cbn in H. injection H as <-.
+      destruct (IH r cs' ltac:(lia) Hr Er) as [Hs He]. apply N.ltb_lt in E1. split.
+      - cbn [forallb]. rewrite Hs, andb_true_r. apply scalar_range. lia.
+      - unfold encode_all in *. cbn [flat_map]. rewrite He. unfold encode_utf8.
+        replace (b <? 128) with true by (symmetry; apply N.ltb_lt; lia). reflexivity. }
+    destruct (width_cases b Hb E1) as (W2 & W3 & W4).
+    destruct (utf8_char_width b =? 2) eqn:E2.
+    { specialize (W2 eq_refl). destruct r as [|c1 r1]; [discriminate|].
+      apply Forall_cons_iff in Hr as [Hc1 Hr1]. unfold wf_byte in Hc1.
+      destruct (is_cont c1) eqn:Ec1; [|discriminate]. apply cont_range in Ec1; [|assumption].
+      destruct (utf8_decode r1) as [cs'|] eqn:Er; [|discriminate]. cbn in H. injection H as <-.
+      destruct (IH r1 cs' ltac:(cbn [length] in Hl; lia) Hr1 Er) as [Hs He].
+      replace ((b - 192) * 64 + (c1 - 128)) with ((b - 192) * 64 + (c1 - 128)) by reflexivity.
+      split.
+      - cbn [forallb]. rewrite Hs, andb_true_r. apply scalar_range. lia.
+      - unfold encode_all in *. cbn [flat_map]. rewrite He, encode_2 by lia.
+        cbn [app]. f_equal; [lia|f_equal; lia]. }
+    destruct (utf8_char_width b =? 3) eqn:E3.
+    { specialize (W3 eq_refl). destruct r as [|c1 [|c2 r2]]; try discriminate.
+      apply Forall_cons_iff in Hr as [Hc1 Hr]. apply Forall_cons_iff in Hr as [Hc2 Hr2]. unfold wf_byte in Hc1, Hc2.
+      destruct (second3 b c1) eqn:Es; [|discriminate]. cbn [andb] in H.
+      destruct (is_cont c2) eqn:Ec2; [|discriminate]. apply cont_range in Ec2; [|assumption].
+      apply second3_range in Es.
+      destruct (utf8_decode r2) as [cs'|] eqn:Er; [|discriminate]. cbn in H. injection H as <-.
+      destruct (IH r2 cs' ltac:(cbn [length] in Hl; lia) Hr2 Er) as [Hs He].
+      split.
+      - cbn [forallb]. rewrite Hs, andb_true_r. apply scalar_range. lia.
+      - unfold encode_all in *. cbn [flat_map]. rewrite He, encode_3 by lia.
+        cbn [app]. f_equal; [lia|f_equal; [lia|f_equal; lia]]. }
+    destruct (utf8_char_width b =? 4) eqn:E4; [|discriminate].
+    { specialize (W4 eq_refl). destruct r as [|c1 [|c2 [|c3 r3]]]; try discriminate.
+      apply Forall_cons_iff in Hr as [Hc1 Hr]. apply Forall_cons_iff in Hr as [Hc2 Hr]. apply Forall_cons_iff in Hr as [Hc3 Hr3].
+      unfold wf_byte in Hc1, Hc2, Hc3.
+      destruct (second4 b c1) eqn:Es; [|discriminate]. cbn [andb] in H.
+      destruct (is_cont c2) eqn:Ec2; [|discriminate]. apply cont_range in Ec2; [|assumption]. cbn [andb] in H.
+      destruct (is_cont c3) eqn:Ec3; [|discriminate]. apply cont_range in Ec3; [|assumption].
+      apply second4_range in Es.
+      destruct (utf8_decode r3) as [cs'|] eqn:Er; [|discriminate]. cbn in H. injection H as <-.
+      destruct (IH r3 cs' ltac:(cbn [length] in Hl; lia) Hr3 Er) as [Hs He].
+      split.
+      - cbn [forallb]. rewrite Hs, andb_true_r. apply scalar_range. lia.
+      - unfold encode_all in *. cbn [flat_map]. rewrite He, encode_4 by lia.
+        cbn [app]. f_equal; [lia|f_equal; [lia|f_equal; [lia|f_equal; lia]]]. }
+Qed.
+
+Theorem valid_utf8_iff_encoding d : wf_bytes d ->
+  (valid_utf8 d = true <-> exists cs, forallb is_scalar_value cs = true /\ d = encode_all cs).
+Proof.
+  intros Hw. split.
+  - unfold valid_utf8. destruct (utf8_decode d) as [cs|] eqn:E; [|discriminate]. intros _.
+    destruct (decode_sound_aux (length d) d cs (le_n _) Hw E) as [Hs He]. exists cs. auto.
+  - intros (cs & Hs & ->). rewrite <- (app_nil_r (encode_all cs)). now rewrite valid_encode_all.
+Qed.
